@@ -13,6 +13,10 @@ for p in selftest/mutants/${1:-}*.patch; do
   git -C /repo apply "$(pwd)/$p"
   out=$(bin/govc check -prop "$prop" -tier $tier -out "$(pwd)/out/selftest" 2>&1)
   code=$?
+  if [ "$prop" = C18 ]; then   # the C18 check also runs the bounded stand-in for Normalize (see ./check)
+    tools/bounded_c18.sh $tier >/dev/null; if [ $? -ne 0 ]; then out="$out
+VIOLATION property=C18 replay=$(pwd)/out/C18/bounded/log.txt"; code=1; fi
+  fi
   git -C /repo apply -R "$(pwd)/$p"
   if [ $code -eq 1 ] && echo "$out" | grep -q "^VIOLATION property=$prop"; then
     echo "caught  $p: $(echo "$out" | grep -c '^VIOLATION') violation(s): $(echo "$out" | grep '^VIOLATION' | head -2 | sed 's/.*replay=[^ ]*replay.[^/]*.//' | tr '\n' ' ')"
